@@ -26,7 +26,7 @@ SPEC = dict(
                "smallest compression that contributed (measured worst ratio 1.00 against the threshold 2; the seeded 'equal "
                "means always merge' gives 2300); (A) on every rank query of a never-merged in-process digest whose values are "
                "all known, |rank(v) - exact empirical mid-rank| <= 1/(2n) + 4 * S/n, S = weight of the centroids around v (two "
-               "below, those at v, two above) (measured worst ratio 0.35 quick / 1.76 thorough against the threshold 4). "
+               "below, those at v, two above) (measured worst ratio 0.46 quick tier / 1.76 on 60000-value streams against the threshold 4). "
                "Together: rank error <= 1/(2n) + 4 * (at most 4 + ties clusters) each <= 1 + 2 n q(1-q) Z/(2k). What the test "
                "does NOT show, and the measurement contradicts any stronger reading: there is no a-priori bound c*q(1-q)/k on "
                "the ABSOLUTE rank error for arbitrary data -- measured worst |rank - empirical rank| = 0.63 (k = 10, n = 60000, "
